@@ -112,8 +112,11 @@ Definition pad_name (name : bytes) : bytes :=
 Definition enc_dir_entry (size mtime : Z) (isdir : bool) (name : bytes) : bytes :=
   be64 (wrap64 size) ++ be64 (wrap64 mtime) ++ bool_byte isdir ++ pad_name name.
 
-(* fileInfoTimes: ctime and atime are masked to 0 by the harness on both sides *)
-Definition masked_time : Z := 0.
+(* fileInfoTimes: a harness cannot set a change time and the kernel moves access times, so the filesystem double
+   reports two fixed, distinct instants for them on every file (harness/dfs.go: normInfo.Sys); the model carries the
+   same two constants, so that an exchange of the two fields, or of either with mtime, shows *)
+Definition masked_ctime : Z := 1222222222.
+Definition masked_atime : Z := 1111111111.
 
 Definition eff_size (fi : finfo) : Z := if fi_dir fi then 0 else fi_size fi.
 
@@ -322,7 +325,7 @@ Definition step (c : cfg) (w : world) (k : conn) (rq : request) : outcome :=
               | (Some (nm, fi), rest) =>
                   let k' := set_cwd k (Some (VPlain (with_dents h rest))) 0 0 in
                   let hdr := if v2
-                             then enc_dirent_v2 (eff_size fi) (fi_mtime fi) masked_time masked_time (zlen nm) (fi_dir fi)
+                             then enc_dirent_v2 (eff_size fi) (fi_mtime fi) masked_ctime masked_atime (zlen nm) (fi_dir fi)
                              else enc_dirent (eff_size fi) (zlen nm) (fi_dir fi) in
                   done w k' (hdr ++ (if zlen nm mod 2 ^ 16 =? 0 then [] else nm))
               end
@@ -344,7 +347,7 @@ Definition step (c : cfg) (w : world) (k : conn) (rq : request) : outcome :=
   | RStatFile p =>
       match fs_stat (plen c) w (abs_path c (rooted_elems p)) with
       | Err _ => done w k (enc_stat (-1) 0 0 0 false)
-      | Ok fi => done w k (enc_stat (eff_size fi) (fi_mtime fi) masked_time masked_time (fi_dir fi))
+      | Ok fi => done w k (enc_stat (eff_size fi) (fi_mtime fi) masked_ctime masked_atime (fi_dir fi))
       end
   | RDeleteFile p | RRmdir p =>
       if is_nil (rooted_elems p) then done w k (enc_result32 false) else     (* the served root itself is refused *)
